@@ -55,7 +55,7 @@ class C08(ParamsProp):
     def corpus(self):
         return [dict(c) for c in CLAUSES] + super().corpus()
 
-    families = {"deep_ref_layers": 40, "many_refs": 60, "embedded_chain": 80, "sibling_fullpath_refs": 150}
+    families = {"deep_ref_layers": 40, "many_refs": 60, "embedded_chain": 80, "sibling_fullpath_refs": 150, "ref_layer_self_lookup": 60}
 
     def base_cases(self, tier, seed):
         N = 1200 if tier == "quick" else 30000
